@@ -1267,3 +1267,21 @@ package mcp
 //@   assert at call go:Cancel: @cancels-the-named-request req.Method == notificationCancelled && calls(coerce) == 1 && callResult(coerce, 1, 1) == nil && $1 == callResult(coerce, 1, 0) && $0 == c.conn
 //@   ensures @nothing-else-cancels old(req.Method) != notificationCancelled ==> cancelled == 0 && $result.1 == jsonrpc2.ErrNotHandled
 //@   ensures @one-cancellation-per-notice cancelled <= 1
+
+// ServerSession.Close (C05, and the link C11 relies on): the connection is closed exactly once per call, after the
+// pending subscriptions/listen handlers were cancelled; the onClose hook runs only after the connection is closed and
+// only for the caller that wins the atomic false->true swap of calledOnClose (so at most once per session).
+//@ func (*ServerSession).Close [C05, C11]
+//@   track (*Connection).Close as closeConn
+//@   track (*Connection).Cancel as cancelListen
+//@   track CompareAndSwap as claim
+//@   track ss.onClose as hook
+//@   callee ss.onClose: modifies *
+//@   callee ss.keepaliveCancel: modifies extern
+//@   requires ss != nil && ss.conn != nil
+//@   modifies *
+//@   ensures @connection-closed-once-per-call calls(closeConn) == 1
+//@   ensures @hook-at-most-once-per-call calls(hook) <= 1 && (calls(hook) == 1 ==> calls(claim) == 1 && callResult(claim, 1, 0))
+//@   assert at call ss.onClose: @hook-runs-after-the-connection-is-closed calls(closeConn) == 1
+//@   assert at call CompareAndSwap: @claims-the-false-to-true-transition !$1 && $2
+//@   loop 1: invariant @connection-still-there ss.conn == old(ss.conn) && calls(closeConn) == 0
